@@ -1002,6 +1002,7 @@ func main() {
 				{"fetch", "ipfslog.NewFromEntryHash("}, {"ctxcheck", "ctx.Err()"}, {"headcheck", "l.Get(h.GetHash())"},
 				{"ownlog", "e.GetLogID() != oplog.GetID()"}, {"held", "oplog.Get(e.GetHash())"},
 				{"canappend", "CanAppend(e, provider"}, {"verify", "e.Verify(provider"},
+				{"enough", "l.GetEntries().Len()-refused >= amount"}, {"again", "amount + refused"},
 				{"merge", "oplog.Join(l, -1)"}, {"listing", "oplog.Values().Len() > amount"}, {"trim", "oplog.Join(l, amount)"}})
 		}},
 		{"GenWatch", func() string {
